@@ -292,10 +292,14 @@ func (r *Run) FailedFor(prop string) bool {
 	return false
 }
 
-func (r *Run) Probe(name string)            { r.probes[name]++ }
-func (r *Run) ProbeN(name string, n int)    { r.probes[name] += int64(n) }
-func (r *Run) Fault(name string)            { r.faults[name]++ }
-func (r *Run) ProbeCount(name string) int64 { return r.probes[name] }
+func (r *Run) Probe(name string)         { r.mu.Lock(); r.probes[name]++; r.mu.Unlock() }
+func (r *Run) ProbeN(name string, n int) { r.mu.Lock(); r.probes[name] += int64(n); r.mu.Unlock() }
+func (r *Run) Fault(name string)         { r.mu.Lock(); r.faults[name]++; r.mu.Unlock() }
+func (r *Run) ProbeCount(name string) int64 {
+	r.mu.Lock()
+	defer r.mu.Unlock()
+	return r.probes[name]
+}
 
 func (r *Run) Finish(idx int, wall time.Duration, status, errText string) *Result {
 	res := &Result{
